@@ -390,12 +390,17 @@ func effectSites(c *Ctx, fn *ssa.Function, w *WEval) []effectSite {
 					out = append(out, es)
 				case *ssa.Call:
 					sc := x.Call.StaticCallee()
-					if sc == nil || depth >= 2 || inlineHelper == nil || !inlineHelper(sc) || len(sc.Blocks) == 0 || len(calls[sc]) != 1 {
+					isLit := sc != nil && sc.Parent() == f // a function literal of this very function, called in place
+					if sc == nil || depth >= 2 || len(sc.Blocks) == 0 {
+						continue
+					}
+					if !isLit && (inlineHelper == nil || !inlineHelper(sc) || len(calls[sc]) != 1) {
 						continue
 					}
 					g, okg := blockGuard(fw, b)
 					sub := newWEval(c.P, sc)
 					sub.depth = fw.depth + 1
+					sub.parentEval = fw
 					for pi, p := range sc.Params {
 						if pi < len(x.Call.Args) {
 							sub.args[p] = fw.term(x.Call.Args[pi])
